@@ -456,6 +456,11 @@ def slp_ctx_rule(ctx):
                 else:
                     continue
                 cx = _kwarg(node, "context", cpos)
+                if isinstance(cx, ast.Constant) and cx.value is None:
+                    # an explicit None on a path taken when the (embedded) context is None
+                    ctx_none = any(isinstance(et, ast.Compare) and len(et.ops) == 1 and isinstance(et.comparators[0], ast.Constant) and et.comparators[0].value is None and "context" in norm_text(et.left) and (isinstance(et.ops[0], ast.Is) == bool(pol)) for et, raw, pol in path.conds)
+                    if ctx_none:
+                        continue
                 if cx is None:
                     if role == "transform":
                         res.fail(Finding("SLP-CTX", fi.module, fi.qualname, path.ret_node, "the transform is called without the context in %s" % mname))
